@@ -63,7 +63,10 @@ import (
 	raftstorage "github.com/hashicorp/consul/internal/storage/raft"
 	"github.com/hashicorp/consul/internal/verifharness/hx"
 	"github.com/hashicorp/consul/proto/private/pbsubscribe"
+	"github.com/hashicorp/consul/types"
 )
+
+func typesCheckID(s string) types.CheckID { return types.CheckID(s) }
 
 const (
 	sigKnown       = "stream:event-index<=snapshot-index-delivered-after-snapshot"
@@ -77,6 +80,8 @@ const (
 	sigConnectLeak = "catalog-events:no-connect-deregister-when-instance-stops-being-connect-native"
 	sigRenameOrder = "catalog-events:deregister-of-renamed-instance-ordered-after-node-reregistration"
 	sigLocalResume = "stream:subscribe-resumes-on-pre-restore-topic-buffer"
+	sigCfgCase     = "config-entry-events:subject-is-case-sensitive-but-the-config-entry-table-is-not"
+	sigNodeCase    = "catalog-events:node-renamed-in-letter-case-leaves-instances-under-old-unique-id"
 )
 
 // ---------------------------------------------------------------- canonical forms
@@ -98,6 +103,8 @@ var protocols = []string{"tcp", "http", "grpc", "http2"}
 
 func kindOf(s *structs.NodeService) string {
 	switch {
+	case s.Kind == structs.ServiceKindTerminatingGateway:
+		return "g"
 	case s.Connect.Native:
 		return "n"
 	case s.Kind == structs.ServiceKindConnectProxy:
@@ -112,7 +119,17 @@ func canonCSNs(nodes structs.CheckServiceNodes) string {
 	var es []ent
 	for _, n := range nodes {
 		k := n.Node.Node + "/" + n.Service.ID
-		es = append(es, ent{k, fmt.Sprintf("%s:%s:%d:%s:%s", k, n.Service.Service, n.Service.Port, n.Node.Address, kindOf(n.Service))})
+		v := fmt.Sprintf("%s:%s:%d:%s:%s", k, n.Service.Service, n.Service.Port, n.Node.Address, kindOf(n.Service))
+		if wideCanon {
+			// wide schedules also observe the health checks carried by every CheckServiceNode
+			var cs []string
+			for _, c := range n.Checks {
+				cs = append(cs, fmt.Sprintf("%s=%s@%s", c.CheckID, c.Status, c.ServiceID))
+			}
+			sort.Strings(cs)
+			v += ":[" + strings.Join(cs, ";") + "]"
+		}
+		es = append(es, ent{k, v})
 	}
 	sort.Slice(es, func(i, j int) bool { return es[i].k < es[j].k })
 	t := make([]string, len(es))
@@ -149,6 +166,11 @@ func canonCfgs(entries []structs.ConfigEntry) string {
 	}
 	return hx.EncList(t)
 }
+
+var traceWide = os.Getenv("VERIF_C11_TRACE") != ""
+
+// wideCanon: set while a wide (monitor-only) schedule runs; see wide.go
+var wideCanon bool
 
 type qres struct {
 	idx  uint64
@@ -293,21 +315,25 @@ type pending struct {
 }
 
 type world struct {
-	run     *hx.Run
-	pub     *stream.EventPublisher
-	fsm     *fsm.FSM
-	idx     uint64
-	clients map[int]*client
-	order   []int
-	dumps   map[uint64]map[string]qres // lineage: version -> key -> direct query result
-	snaps   map[uint64][]byte
-	queue   []pending // mirror of publishCh (harness bookkeeping only)
-	epoch   int       // number of restores so far
-	gaps    []gap     // commit index ranges discarded by restores (indexes are never reused)
-	ops     []string  // replay of the current schedule
-	tags    map[string]bool
-	poison  map[string]map[string]string // key -> id -> signature (see flagWrite)
-	cached  map[string]snapInfo          // key -> when the currently cached snapshot was taken
+	run      *hx.Run
+	pub      *stream.EventPublisher
+	fsm      *fsm.FSM
+	idx      uint64
+	clients  map[int]*client
+	order    []int
+	dumps    map[uint64]map[string]qres // lineage: version -> key -> direct query result
+	snaps    map[uint64][]byte
+	queue    []pending // mirror of publishCh (harness bookkeeping only)
+	epoch    int       // number of restores so far
+	gaps     []gap     // commit index ranges discarded by restores (indexes are never reused)
+	ops      []string  // replay of the current schedule
+	tags     map[string]bool
+	poison   map[string]map[string]string // key -> id -> signature (see flagWrite)
+	cached   map[string]snapInfo          // key -> when the currently cached snapshot was taken
+	cfgNames map[string]bool              // names of the service-defaults entries the harness wrote or deleted
+	nodeCase bool                         // a registration changed the letter case of a stored node name (see noteNodeCase)
+	univ     []keyT                       // subscription keys whose direct query is recorded at every version
+	quiet    bool                         // monitor-only schedule: no protocol lines (the Lean model does not cover it)
 }
 
 type snapInfo struct {
@@ -315,13 +341,16 @@ type snapInfo struct {
 	ver uint64
 }
 
-func newWorld(run *hx.Run, ttl bool) *world {
+func newWorld(run *hx.Run, ttl bool) *world { return newWorldU(run, ttl, universe, false) }
+
+func newWorldU(run *hx.Run, ttl bool, univ []keyT, quiet bool) *world {
+	wideCanon = quiet
 	d := time.Duration(0)
 	if ttl {
 		d = time.Hour
 	}
 	pub := stream.NewEventPublisher(d)
-	w := &world{run: run, pub: pub, clients: map[int]*client{}, dumps: map[uint64]map[string]qres{}, snaps: map[uint64][]byte{}, tags: map[string]bool{}, poison: map[string]map[string]string{}, cached: map[string]snapInfo{}}
+	w := &world{run: run, pub: pub, clients: map[int]*client{}, dumps: map[uint64]map[string]qres{}, snaps: map[uint64][]byte{}, tags: map[string]bool{}, poison: map[string]map[string]string{}, cached: map[string]snapInfo{}, univ: univ, quiet: quiet}
 	backend, err := raftstorage.NewBackend(nil, hclog.NewNullLogger())
 	if err != nil {
 		panic(err)
@@ -337,9 +366,18 @@ func newWorld(run *hx.Run, ttl bool) *world {
 	return w
 }
 
+// normKey is the routing identity of a subscription key: service subjects are case-insensitive
+// (EventSubjectService.String, the memdb service / connect indexes)
+func normKey(k keyT) string {
+	if k.topic == "g" {
+		return k.String()
+	}
+	return k.topic + "." + strings.ToLower(k.subj)
+}
+
 func (w *world) dumpAll() map[string]qres {
 	m := map[string]qres{}
-	for _, k := range universe {
+	for _, k := range w.univ {
 		for _, a := range authzSpecs {
 			m[dumpKey(k, a.name)] = directQuery(w.fsm.State(), k, a.name)
 		}
@@ -347,9 +385,9 @@ func (w *world) dumpAll() map[string]qres {
 	return m
 }
 
-func dumpStr(m map[string]qres) string {
-	t := make([]string, len(universe))
-	for i, k := range universe {
+func (w *world) dumpStr(m map[string]qres) string {
+	t := make([]string, len(w.univ))
+	for i, k := range w.univ {
 		q := m[k.String()]
 		t[i] = fmt.Sprintf("%s@%d:%s", k.String(), q.idx, q.view)
 	}
@@ -383,6 +421,7 @@ func (w *world) commit(t structs.MessageType, req any, tok string) string {
 	resp := w.apply(t, req)
 	if err, ok := resp.(error); ok && err != nil {
 		w.tag("commit:error")
+		w.dumps[w.idx] = w.dumpAll() // a refused write: the index advanced, the state did not
 		return "err"
 	}
 	if w.pub.VerifC11QueueLen() > before {
@@ -390,7 +429,7 @@ func (w *world) commit(t structs.MessageType, req any, tok string) string {
 	}
 	d := w.dumpAll()
 	w.dumps[w.idx] = d
-	return fmt.Sprintf("ok q=%d %s", w.pub.VerifC11QueueLen(), dumpStr(d))
+	return fmt.Sprintf("ok q=%d %s", w.pub.VerifC11QueueLen(), w.dumpStr(d))
 }
 
 type svcSpec struct {
@@ -402,7 +441,20 @@ type svcSpec struct {
 
 func (w *world) nextIdx() uint64 { w.idx++; return w.idx }
 
+// noteNodeCase: the harness is about to register a node under a name that differs from the stored
+// node row only in letter case. The catalog treats the two as the same node (the row is renamed),
+// the service rows keep the old spelling until they are written again, and CheckServiceNode.UniqueID
+// — the key of a materialized HealthView — is case-sensitive.
+func (w *world) noteNodeCase(node string) {
+	_, n, _ := w.fsm.State().GetNode(node, nil, "")
+	if n != nil && n.Node != node {
+		w.nodeCase = true
+		w.tag("flag:" + sigNodeCase)
+	}
+}
+
 func (w *world) opReg(node string, addr int, svc *svcSpec) (string, string) {
+	w.noteNodeCase(node)
 	idx := w.nextIdx()
 	req := structs.RegisterRequest{Datacenter: "dc1", Node: node, Address: strconv.Itoa(addr)}
 	op := fmt.Sprintf("reg %d %s %d -", idx, hx.EncS(node), addr)
@@ -414,6 +466,8 @@ func (w *world) opReg(node string, addr int, svc *svcSpec) (string, string) {
 		case "p":
 			ns.Kind = structs.ServiceKindConnectProxy
 			ns.Proxy.DestinationServiceName = svc.dest
+		case "g":
+			ns.Kind = structs.ServiceKindTerminatingGateway
 		}
 		req.Service = ns
 		w.flagWrite(node, strconv.Itoa(addr), ns)
@@ -438,7 +492,15 @@ func (w *world) opDereg(node, sid string) (string, string) {
 	return fmt.Sprintf("dereg %d %s %s", idx, hx.EncS(node), s), w.commit(structs.DeregisterRequestType, req, "")
 }
 
+func (w *world) noteCfg(name string) {
+	if w.cfgNames == nil {
+		w.cfgNames = map[string]bool{}
+	}
+	w.cfgNames[name] = true
+}
+
 func (w *world) opCfg(name string, val int) (string, string) {
+	w.noteCfg(name)
 	idx := w.nextIdx()
 	req := &structs.ConfigEntryRequest{Op: structs.ConfigEntryUpsert, Datacenter: "dc1",
 		Entry: &structs.ServiceConfigEntry{Kind: structs.ServiceDefaults, Name: name, Protocol: protocols[val%len(protocols)]}}
@@ -447,6 +509,7 @@ func (w *world) opCfg(name string, val int) (string, string) {
 }
 
 func (w *world) opCfgDel(name string) (string, string) {
+	w.noteCfg(name)
 	idx := w.nextIdx()
 	req := &structs.ConfigEntryRequest{Op: structs.ConfigEntryDelete, Datacenter: "dc1",
 		Entry: &structs.ServiceConfigEntry{Kind: structs.ServiceDefaults, Name: name}}
@@ -697,10 +760,10 @@ func (w *world) opRestore(ver uint64) (string, string) {
 	}
 	d := w.dumpAll()
 	// the restored store must answer exactly as the store did at the saved version
-	if dumpStr(d) != dumpStr(w.dumps[ver]) {
-		w.violate("restore:state-differs-from-saved-version", fmt.Sprintf("restore %d: %s vs %s", ver, dumpStr(d), dumpStr(w.dumps[ver])))
+	if w.dumpStr(d) != w.dumpStr(w.dumps[ver]) {
+		w.violate("restore:state-differs-from-saved-version", fmt.Sprintf("restore %d: %s vs %s", ver, w.dumpStr(d), w.dumpStr(w.dumps[ver])))
 	}
-	return op, "ok " + dumpStr(d)
+	return op, "ok " + w.dumpStr(d)
 }
 
 // lineageVersion returns the direct query results at the newest version <= idx.
@@ -928,6 +991,19 @@ func (w *world) monitorDelivery(c *client, kind string, idx, vidx uint64, view s
 // flagged (before applying it, from the store's own answers) as one of two event-generation
 // shapes of catalog_events.go; see flagWrite. Every differing id must be flagged for this key.
 func (w *world) attribute(c *client, view, want string) string {
+	if c.key.topic == "g" && c.key.subj != "*" {
+		// the harness itself wrote an entry whose name differs from the subscribed name only in letter
+		// case: the config-entries table (and so the direct query) treats them as one entry, the event
+		// subject (EventSubjectConfigEntry.String) does not
+		for n := range w.cfgNames {
+			if n != c.key.subj && strings.EqualFold(n, c.key.subj) {
+				return sigCfgCase
+			}
+		}
+	}
+	if w.nodeCase && c.key.topic != "g" {
+		return sigNodeCase
+	}
 	parse := func(v string) map[string]string {
 		m := map[string]string{}
 		for _, e := range strings.Split(v, ",") {
@@ -942,7 +1018,7 @@ func (w *world) attribute(c *client, view, want string) string {
 	n := 0
 	for id, e := range a {
 		if b[id] != e {
-			p, ok := w.poison[c.key.String()][id]
+			p, ok := w.poison[normKey(c.key)][id]
 			if !ok {
 				return ""
 			}
@@ -952,7 +1028,7 @@ func (w *world) attribute(c *client, view, want string) string {
 	}
 	for id := range b {
 		if _, ok := a[id]; !ok {
-			p, ok := w.poison[c.key.String()][id]
+			p, ok := w.poison[normKey(c.key)][id]
 			if !ok {
 				return ""
 			}
@@ -966,14 +1042,27 @@ func (w *world) attribute(c *client, view, want string) string {
 	return sig
 }
 
-func connectSubject(s *structs.NodeService) string {
+// connectSubjects: the Connect-topic subjects (lower-cased: routing is case-insensitive) an
+// instance is published under: its own name (connect-native), its destination (sidecar proxy),
+// the services linked to it in gateway-services (terminating gateway).
+func (w *world) connectSubjects(s *structs.NodeService) []string {
 	switch {
+	case s.Kind == structs.ServiceKindTerminatingGateway:
+		_, gs, err := w.fsm.State().GatewayServices(nil, s.Service, nil)
+		if err != nil {
+			return nil
+		}
+		var out []string
+		for _, g := range gs {
+			out = append(out, strings.ToLower(g.Service.Name))
+		}
+		return out
 	case s.Connect.Native:
-		return s.Service
+		return []string{strings.ToLower(s.Service)}
 	case s.Kind == structs.ServiceKindConnectProxy:
-		return s.Proxy.DestinationServiceName
+		return []string{strings.ToLower(s.Proxy.DestinationServiceName)}
 	}
-	return ""
+	return nil
 }
 
 // flagWrite inspects a registration BEFORE it is applied (using only the store's own
@@ -982,9 +1071,12 @@ func connectSubject(s *structs.NodeService) string {
 //	D1 an instance that is connect-native for subject X is re-registered so that it is no
 //	   longer Connect-enabled for X: catalog_events.go publishes no deregistration on the
 //	   Connect topic for X;
-//	D2 one registration changes the node and renames an instance whose Connect subject stays
-//	   the same: the deregistration of the old name is appended AFTER the node-level
-//	   re-registration, so subscribers of that subject drop a live instance.
+//	D2 one registration changes the node and renames an instance (before.ServiceName !=
+//	   after.ServiceName, a byte comparison) while one of its subjects stays the same (the
+//	   Connect subject of a sidecar / native instance; the ServiceHealth subject when the two
+//	   names differ only in letter case, subjects being case-insensitive): the deregistration
+//	   of the old name is appended AFTER the node-level re-registration, so subscribers of that
+//	   subject drop a live instance.
 func (w *world) flagWrite(node string, addr string, after *structs.NodeService) {
 	st := w.fsm.State()
 	_, before, err := st.NodeService(nil, node, after.ID, nil, "")
@@ -992,43 +1084,68 @@ func (w *world) flagWrite(node string, addr string, after *structs.NodeService) 
 		return
 	}
 	_, n, _ := st.GetNode(node, nil, "")
-	nodeChanged := n == nil || n.Address != addr
-	bs, as := connectSubject(before), connectSubject(after)
+	nodeChanged := n == nil || n.Address != addr || n.Node != node
 	id := node + "/" + after.ID
-	mark := func(subj, sig string) {
-		k := "c." + subj
+	mark := func(k, sig string) {
 		if w.poison[k] == nil {
 			w.poison[k] = map[string]string{}
 		}
 		w.poison[k][id] = sig
 		w.tag("flag:" + sig)
 	}
-	if before.Connect.Native && bs != as {
-		mark(bs, sigConnectLeak)
+	bs, as := w.connectSubjects(before), w.connectSubjects(after)
+	in := func(x string, l []string) bool {
+		for _, y := range l {
+			if x == y {
+				return true
+			}
+		}
+		return false
 	}
-	if nodeChanged && before.Service != after.Service && bs != "" && bs == as {
-		mark(bs, sigRenameOrder)
+	if before.Connect.Native && before.Kind != structs.ServiceKindTerminatingGateway {
+		for _, b := range bs {
+			if !in(b, as) {
+				mark("c."+b, sigConnectLeak)
+			}
+		}
+	}
+	if nodeChanged && before.Service != after.Service {
+		if strings.EqualFold(before.Service, after.Service) && strings.ToLower(before.Service) == strings.ToLower(after.Service) {
+			mark("h."+strings.ToLower(before.Service), sigRenameOrder)
+		}
+		for _, b := range bs {
+			if in(b, as) {
+				mark("c."+b, sigRenameOrder)
+			}
+		}
 	}
 }
 
 // ---------------------------------------------------------------- schedules
 
 type sched struct {
-	w   *world
-	r   *hx.RNG
-	key strings.Builder
+	w       *world
+	r       *hx.RNG
+	key     strings.Builder
+	wide    bool     // monitor-only schedule over the wide write alphabet (wide.go)
+	nodes   []string // node names the writes pick from
+	cfgCase bool     // wide: service-defaults entries named web / Web
 }
 
 func (s *sched) emit(op, out string) {
 	s.w.ops = append(s.w.ops, op)
-	s.w.run.Line(op, out)
+	if !s.w.quiet {
+		s.w.run.Line(op, out)
+	} else if traceWide {
+		fmt.Fprintf(os.Stderr, "WIDE %s => %s\n", op, out)
+	}
 	s.key.WriteString(op)
 	s.key.WriteByte(';')
 }
 
 func begin(run *hx.Run, ttl bool) *sched {
 	w := newWorld(run, ttl)
-	s := &sched{w: w}
+	s := &sched{w: w, nodes: nodes}
 	s.emit("new "+hx.EncBool(ttl), "ok")
 	return s
 }
@@ -1066,6 +1183,10 @@ var (
 )
 
 func (s *sched) randomWrite() {
+	if s.wide {
+		s.wideWrite()
+		return
+	}
 	w, r := s.w, s.r
 	switch x := r.Intn(100); {
 	case x < 50:
@@ -1097,14 +1218,18 @@ func (s *sched) randomWrite() {
 
 func randomSchedule(run *hx.Run, r *hx.RNG, maxActs int, withRestore bool) {
 	s := begin(run, r.Chance(70))
+	randomBody(s, r, maxActs, withRestore)
+}
+
+func randomBody(s *sched, r *hx.RNG, maxActs int, withRestore bool) {
 	s.r = r
 	w := s.w
 	nClients := 2 + r.Intn(3)
-	focus := universe[r.Intn(len(universe))]
+	focus := w.univ[r.Intn(len(w.univ))]
 	for i := 1; i <= nClients; i++ {
 		k := focus
 		if r.Chance(40) {
-			k = universe[r.Intn(len(universe))]
+			k = w.univ[r.Intn(len(w.univ))]
 		}
 		az := "all"
 		if r.Chance(45) {
@@ -1527,6 +1652,7 @@ func exhaustive(run *hx.Run, depth int) int {
 func main() {
 	run := hx.Start()
 	run.Rule = "schedules over {client, commit(reg|dereg|cfg|cfgdel|tok|kv), pub (drain one queued batch), sub, next, unsub, expire, restore}; nontrivial = at least one event or snapshot delivered"
+	subjectLines(run)
 	knownWitness(run)
 	preRestoreWitness(run)
 	connectLeakWitness(run)
@@ -1544,5 +1670,15 @@ func main() {
 		r := run.RNG.Fork(uint64(i))
 		randomSchedule(run, r, 26, i%3 == 2)
 	}
+	// monitor-only schedules over gateways, checks, transactions, case-variant names (wide.go)
+	wideCorpus(run)
+	nodeCaseWitness(run)
+	cfgCaseWitness(run)
+	nw := run.Scale(300, 2000)
+	for i := 0; i < nw; i++ {
+		r := run.RNG.Fork(uint64(1<<32 + i))
+		wideSchedule(run, r, 30, i%4 == 3, i%5 == 4)
+	}
+	wideCanon = false
 	run.Finish()
 }
